@@ -125,6 +125,11 @@ def quantile_(array, inv_idx, *, q, axis, skipna, group_idx, dtype=None, out=Non
     result = _lerp(loval, hival, t=gamma, out=out, dtype=dtype)
     if not skipna and np.any(nanmask):
         result[..., nanmask] = np.nan
+    # a group without any valid member has no quantile: its virtual index points into the neighbouring groups
+    # (actual_sizes was decremented above)
+    novalid = actual_sizes < 0
+    if np.any(novalid):
+        result[..., novalid] = np.nan
     return result
 
 
